@@ -24,7 +24,8 @@ RULE = (
     "always true, unhashable), Falsy (len 0), FalsyList (empty list subclass)} x receiver name (self/me) x selector (class / object / dotted path / nested under "
     "sweep) on method kind (plain, functools.wraps-decorated, property, property over a decorated getter) x focus (w body variable, v parameter) x "
     "call sequence incl. the same-named plain function; plus a method re-entered on the next receiver before its own "
-    "focus is bound (root / nested / class selectors) and selectors written without env inside a helper whose "
+    "focus is bound (root / nested / class selectors), a method that stores into its receiver by subscript, an "
+    "overriding method that mentions super(), and selectors written without env inside a helper whose "
     "caller has clashing local names. Non-trivial = the population has two distinct-but-equal "
     "or an unhashable instance, and both probed and non-probed receivers are called; distinct by case."
 )
